@@ -247,6 +247,9 @@ func init() {
 		[]string{"/a/u", "/a/su", "/a/sv"},                                                        // 28: the tail of a split node equals the text of an existing sibling
 		[]string{"/p/d", "/p/{id}/d", "/p/{id}/c", "/p/{id}"},                                     // 29: the same below a parameter
 		[]string{"/i/{n:u}", "/i/{r:[a-c]+}", "/i/{s}", "/i/{n:u}/x", "/w/{m:u}.t"},               // 30: an arbitrary (uninterpreted) user interceptor
+		[]string{"/a/x", "/a/y", "/b/x", "/b/y", "/c/x", "/c/y", "/d/x", "/d/y", "/e/x", "/e/y", "/bb"}, // 31: five non-leaf literal siblings, then a split of one that is not the last
+		[]string{"/p/{id}/au", "/p/{id}/{g:\\w+}", "/p/{id}/{n:digit}"},                           // 32: the literal tail of a split parameter node against later regexp / interceptor siblings
+		[]string{"/p/{id}/{n:digit}", "/p/{id}/{g:\\w+}", "/p/{id}/au"},                           // 33: reverse order
 	)
 }
 
